@@ -101,13 +101,23 @@ func (c10) Gen(r *sim.Rand, c *sim.Case, tier string) {
 		ops = append(ops, sim.Op{K: "para", S: []sim.Str{"{{#image pic}}"}})
 		shared := btoiP(r.Chance(0.35)) // a mail merge: one data object with one logo for both renders
 		first := world.TplImageSpec(r, []int{r.Intn(3), r.Range(2, 30), r.Range(2, 30), 555000})
+		// read fault (some cases): the picture file of the first render is missing when the engine wants it; the second render's picture
+		// has the same format, i.e. comes from a file of the same name that exists
+		faulted := shared == 0 && r.Chance(0.3)
 		for d := 1; d <= 2; d++ {
 			pic := world.TplImageSpec(r, []int{r.Intn(3), r.Range(2, 30), r.Range(2, 30), 555000 + d})
 			if shared == 1 {
 				pic = first
 			}
+			fl := 0
+			if faulted {
+				pic[0], pic[7] = first[0], []int{1, 3}[d%2] // both through a file, same format
+				if d == 1 {
+					fl = 1
+				}
+			}
 			data := &world.TData{Vars: map[string]any{"name": fmt.Sprintf("N%d", d)}, Images: map[string][]int{"pic": pic}}
-			ops = append(ops, sim.Op{K: "tpl.render", D: d, I: []int{0, 1, 0, shared, 1}, S: []sim.Str{sim.Str(data.JSON())}})
+			ops = append(ops, sim.Op{K: "tpl.render", D: d, I: []int{0, 1, 0, shared, 1, fl}, S: []sim.Str{sim.Str(data.JSON())}})
 		}
 		for d := 2; d >= 1; d-- {
 			f := r.Intn(3)
@@ -156,6 +166,7 @@ func (p c10pic) expectedExtent() (int64, int64) {
 
 func (c10) Exec(c *sim.Case, env *Env) []sim.Violation {
 	model := map[int][]c10pic{}
+	renderFailed := ""
 	obs := &histObserver{panics: true}
 	obs.after = func(w *world.World, op sim.Op, ds *world.Doc, o *world.Obs) {
 		if o.Skipped || ds.Dead {
@@ -194,7 +205,14 @@ func (c10) Exec(c *sim.Case, env *Env) []sim.Violation {
 			}
 		case "tpl.render":
 			if o.Err != nil {
+				if op.Int(5) != 1 && !o.Skipped {
+					// (a render whose picture file was taken away may fail; any other render of these valid templates and pictures must not)
+					renderFailed = fmt.Sprintf("rendering into document %d failed although its picture and template are valid: %v", ds.Slot, o.Err)
+				}
 				return
+			}
+			if op.Int(5) == 1 {
+				w.Extra[fmt.Sprintf("c10loose%d", ds.Slot)] = true // rendered without its picture file: whatever came out, the count clause is off
 			}
 			cp := append([]c10pic{}, model[op.Int(0)]...)
 			if d := world.ParseTData(op.Str(0)); d != nil && w.Extra[fmt.Sprintf("c10ph%d", op.Int(0))] == true {
@@ -349,6 +367,9 @@ func (c10) Exec(c *sim.Case, env *Env) []sim.Violation {
 		return out
 	}
 	_, viol := runHistory(c, env, "c10", obs, nil)
+	if len(viol) == 0 && renderFailed != "" {
+		viol = append(viol, sim.Violation{Clause: "render-failed", Sig: "valid-template-and-picture", Detail: renderFailed})
+	}
 	if len(viol) > 1 {
 		viol = viol[:1]
 	}
